@@ -594,8 +594,10 @@ def run(ctx):
                 else:
                     units.append((kind, [f], n, U, budget, init))
     t0 = time.time()
-    with mp.Pool(ctx.jobs) as pool:
-        prs = [pool.apply_async(predicates_unit, ((3 if ctx.quick else 4, budget, (i, j)),))
+    with mp.Pool(ctx.jobs, maxtasksperchild=4) as pool:
+        # every operation on four predicates: 3 operations in both tiers (4 do not exhaust: > 10^6
+        # paths per first pair); the growing / assigning operations on five predicates: 3 / 4
+        prs = [pool.apply_async(predicates_unit, ((3, budget, (i, j)),))
                for i in range(4) for j in range(4)]
         prs += [pool.apply_async(predicates_unit, ((3 if ctx.quick else 4, budget, (i, j), True),))
                 for i in range(5) for j in range(5)]
@@ -637,7 +639,7 @@ def run(ctx):
     rep.coverage = dict(
         states=paths, transitions=decisions, traces_validated_against_impl=replays,
         samples=samples[:6],
-        bounds=dict(initial_elements='0..2 (symbolic, possibly equal)', operations_after_init=n_ops, universe=U, predicates_universe='F/1, F/2, G/1, Identity with every operation; F/1, F/2, G/1, G/2, Identity with append/insert/setidx/setslice/update; first operation is update([p, q])',
+        bounds=dict(initial_elements='0..2 (symbolic, possibly equal)', operations_after_init=n_ops, universe=U, predicates_universe='F/1, F/2, G/1, Identity with every operation; F/1, F/2, G/1, G/2, Identity with append/insert/setidx/setslice/update; first operation is update([p, q]); 3 operations (wide universe: 4 in the thorough tier)',
                     slices='contiguous, start in [0,L+1], up to 2 replaced, up to 2 arriving'),
         operations=list(ALL_OPS),
         solver=dict(queries=queries, results=qres, solver_time_s=round(solver_time, 2)),
